@@ -259,6 +259,12 @@ class Art:
         return ""
 
     def record(self) -> dict:
+        vals: dict = collections.defaultdict(set)
+        for n, v, _ in self.obs:
+            vals[n].add(v)
+        for n, vs in sorted(vals.items()):
+            if len(vs) > 1 and not n.endswith("filler"):
+                self.notes.append(f"{n}: {len(vs)} distinct values observed on one artifact (attribute vs exported bytes)")
         return {"aid": self.aid, "kind": self.kind, "steps": [list(s) for s in self.steps], "invented": sorted(self.invented),
                 "obs": [[n, v.hex(), s] for n, v, s in self.obs], "ctr_chosen": self.ctr_chosen, "exports": self.exports,
                 "sig": self.sig(), "notes": self.notes}
@@ -575,13 +581,14 @@ class BeeArt(Art):
             self._look_hdr(self.obj, "", src)
 
     def _decode(self, hdr, blob, prefix):
-        # exported bytes: EKIB = AES-ECB(sw_key, kib_key | kib_iv); PRDB at 0x80 = AES-CBC(kib_key, kib_iv, ...), counter at +32
+        # exported bytes: EKIB = AES-ECB(sw_key, kib_key | kib_iv); PRDB at 0x80 = AES-CBC(kib_key, kib_iv, ...), the counter
+        # is stored byte-reversed at +32
         sw = self._sw_key(hdr)
         kib = refmodes.ecb_decrypt(sw, blob[:32])
         self.see(prefix + "kib_key", kib[:16], "exported-bytes")
         self.see(prefix + "kib_iv", kib[16:32], "exported-bytes")
         prdb = refmodes.cbc_decrypt(kib[:16], kib[16:32], blob[0x80:0x180])
-        self.see(prefix + "counter", prdb[32:48], "exported-bytes")
+        self.see(prefix + "counter", prdb[32:48][::-1], "exported-bytes")
 
     def export(self):
         self.exports += 1
